@@ -319,6 +319,12 @@ def oracle(case, obs):
 
 
 def crash_family(case, obs):
+    # an addon that replaces a 101 response leaves the piped Http1Client behind: its own family
+    saw101 = any(t.get("st") == 101 for op in case["sched"] if op[0] == "s" for t in op[2])
+    replaced = any(a in ("resp", "sresp") and k.split(":")[1] in ("responseheaders", "response")
+                   for k, a in case.get("pol", {}).items())
+    if saw101 and replaced and obs["crash"] == "AssertionError@_handle_event":
+        return obs["crash"] + "-replaced-101"
     return obs["crash"]
 
 
